@@ -2,8 +2,9 @@
    Only ExtrOcamlBasic: bool, option, unit, list, prod, sumbool map to OCaml's own
    types; N, Z, positive, nat stay the extracted inductive types.  Run from the
    build directory: the output file lands in the current directory. *)
-Require Import Base VLQ SourceMap.
+Require Import Base VLQ SourceMap Token Lexer.
 Require Extraction.
 Require Import ExtrOcamlBasic.
 Extraction Language OCaml.
-Extraction "model.ml" run_mapper mapper_source_map encode_vlq decode_vlq decode_mappings.
+Extraction "model.ml" run_mapper mapper_source_map encode_vlq decode_vlq decode_mappings
+  lx_init next_tokens tokenize.
